@@ -59,6 +59,7 @@ def _groups(tier, seed):
     for fk in ('chmod000', 'open:EACCES', 'read:0', 'read:1', 'read:8192', 'read:8193', 'read:32768', 'read:40000', 'read:65536', 'read:65537'):
         yield {'kind': 'file', 'fault': fk}
     yield {'kind': 'links'}
+    yield {'kind': 'media'}
     for mode in ('', ' dfs'):
         for where in ('top', 'sub'):
             yield {'kind': 'archive', 'mode': mode, 'where': where}
@@ -207,6 +208,40 @@ def eval_group(env, group, tier):
                             ok = not missing and not extra and not dup and not bad_inside
                             emit(sub, ok, 'rows-under-fault:' + fk, {'query': q, 'missing': missing, 'extra': extra, 'inside': inside, 'dup': dup,
                                                                        'dirs': list(combo)}, sig=(fk, tuple(got)))
+        elif kind == 'media':
+            # files whose format-specific reader fails (or is handed something that is no file at all): only that entry's
+            # format columns are empty, the other rows and columns are as in a tree without them, no crash, status 0 or 1
+            tif = (b'II*\x00\x08\x00\x00\x00\x01\x00\x25\x88\x04\x00\x01\x00\x00\x00\x1a\x00\x00\x00\x00\x00\x00\x00'
+                   b'\x02\x00\x01\x00\x02\x00\x02\x00\x00\x00N\x00\x00\x00\x02\x00\x05\x00\x03\x00\x00\x00\x38\x00\x00\x00\x00\x00\x00\x00' + b'\x00' * 24)
+            wav_nodata = b'RIFF\x1c\x00\x00\x00WAVEfmt \x10\x00\x00\x00\x01\x00\x01\x00\x40\x1f\x00\x00\x80\x3e\x00\x00\x02\x00\x10\x00'
+            wav_rate0 = b'RIFF\x24\0\0\0WAVEfmt \x10\0\0\0\x01\0\x01\0\0\0\0\0\0\0\0\0\x02\0\x10\0data\0\0\0\0'
+            mkv = b'\x1a\x45\xdf\xa3\x80\x18\x53\x80\x67\x93\x11\x4d\x9b\x74\x8e\x4d\xbb\x8b\x53\xab\x84\x15\x49\xa9\x66\x53\xac\x81\x00'
+            tree = {'ok.txt': F(3), 'nofix.tif': F(data=tif), 'rec.wav': F(data=wav_nodata), 'zero.wav': F(data=wav_rate0), 'clip.mkv': F(data=mkv),
+                    'icons.svg': D({'inner': F(1)}), 'dang.svg': L('nowhere'), 'bad.svg': F(data=b'<svg \xff\xfe width="1">'), 'secret.svg': F(data='<svg/>', mode=0),
+                    'pipe.png': {'t': 'p'}, 'pipe.mp3': {'t': 'p'}, 'z.mp4': F(data=b'\x00\x00\x00\x08ftyp'), 'e.jpg': F(0), 'ok2.txt': F(4)}
+            core.materialise(root, tree)
+            names = sorted(p for p, n, l in core.walk_tree(tree))
+            for cols in (['width', 'height'], ['duration'], ['exif_make', 'exif_lat'], ['mp3_title', 'mp3_year'], ['width', 'duration', 'exif_model', 'size']):
+                for form in ('select', 'where'):
+                    sub = ['media', cols, form]
+                    if only is not None and sub != only:
+                        continue
+                    if form == 'select':
+                        q = 'path, size, ' + ', '.join(cols) + ' from . into list'
+                    else:
+                        q = "path, size from . where " + ' or '.join("%s = 'zz'" % c for c in cols if c != 'size') + " or size >= 0 into list"
+                    o = env.run([q], cwd=root, user=NOBODY, timeout=10.0)
+                    rows = o.rows(2 + (len(cols) if form == 'select' else 0))
+                    bad = None
+                    if o.timeout:
+                        bad = ('media-reader-hang', o.brief())
+                    elif o.panicked or b'panicked' in o.err or o.rc not in (0, 1):
+                        bad = ('media-reader-crash', o.brief())
+                    elif rows is None or sorted(r[0] for r in rows) != ['./' + n for n in names]:
+                        bad = ('media-rows-lost', {'got': sorted(r[0] for r in (rows or []))[:20], 'stderr': o.brief()['err']})
+                    elif form == 'select' and any(v for r in rows for c, v in zip(cols, r[2:]) if c != 'size' and os.path.basename(r[0]) not in ('e.jpg',)):
+                        bad = ('media-value-from-unreadable', {'rows': [r for r in rows if any(r[2:])][:5]})
+                    emit(sub, bad is None, bad[0] if bad else None, dict(bad[1], query=q) if bad else None)
         elif kind == 'root':
             core.materialise(root, {'good': D({'a': F(1), 'b': F(2)}), 'bad': D({'x': F(1)}, mode=0), 'file': F(1)})
             os.chmod(os.path.join(root, 'bad'), 0)
